@@ -223,6 +223,7 @@ async fn workload(mut sim: Sim, o: Opts) -> Result<Value, String> {
     for (i, k) in keys.iter().enumerate() {
         // some networks are built with a user outbound layer: the defaults must still apply
         sim::USER_OUTBOUND_LAYER.with(|c| c.set(sim.rng.gen_bool(0.5)));
+        sim::USER_OUTBOUND_DELAY_MS.with(|c| c.set([0u64, 0, 150, 600][sim.rng.gen_range(0..4)]));
         if o.mode == "abandon" && i < 2 {
             // back-pressure at the top of the serving stack and a per-peer limiter below it
             sim::SERVER_LIMITS.with(|c| c.set(Some((3, 2))));
